@@ -1,18 +1,18 @@
 INIT SimInit
 NEXT SimNext
 CONSTANTS
-  N = 2
+  N = 1
   MaxConn = 3
-  MaxDialFail = 1
+  MaxDialFail = 0
   MaxKill = 1
   FixSessErr = FALSE
   FixRet = FALSE
   FixAdd = FALSE
-  Depth = 19
+  Depth = 5
   Loop = FALSE
-  AddGate = TRUE
+  AddGate = FALSE
   MaxHeal = 1
   Est = FALSE
-  Rcv = FALSE
-  MaxSilent = 0
+  Rcv = TRUE
+  MaxSilent = 1
 CHECK_DEADLOCK FALSE
